@@ -27,6 +27,13 @@ class Law:
 
     discrete = False
     moments_err = 0.0  # absolute error estimate of the tabulated moments (0 = closed form)
+    std_cond = 1.0  # condition number of the closed form of the standard deviation (cancellation)
+    unbounded_pdf = False  # the density has an integrable singularity
+
+    @property
+    def mean_mag(self):
+        """Sum of the magnitudes of the terms the mean is made of (scale of its rounding error)."""
+        return abs(self.mean) + self.std
 
     def cdf(self, x):
         raise NotImplementedError
@@ -105,6 +112,7 @@ class Beta(Law):
         self.mean = a + (b - a) * alpha / s
         self.std = (b - a) * math.sqrt(alpha * beta / (s * s * (s + 1)))
         self.support = (a, b)
+        self.unbounded_pdf = alpha < 1 or beta < 1
 
     def cdf(self, x):
         z = min(1.0, max(0.0, (x - self.a) / (self.b - self.a)))
@@ -123,7 +131,14 @@ class Weibull(Law):
         sgn = 1 if self.min else -1
         self.mean = loc + sgn * scale * g1
         self.std = scale * math.sqrt(g2 - g1 * g1)
+        self.std_cond = g2 / (g2 - g1 * g1)
+        self._mean_mag = abs(loc) + scale * g1
+        self.unbounded_pdf = shape < 1
         self.support = (loc, INF) if self.min else (-INF, loc)
+
+    @property
+    def mean_mag(self):
+        return self._mean_mag + self.std
 
     def cdf(self, x):
         if self.min:
@@ -144,6 +159,10 @@ class LogNormal(Law):
         self.mean = loc + math.exp(m + s * s / 2)
         self.std = math.sqrt(math.expm1(s * s)) * math.exp(m + s * s / 2)
         self.support = (loc, INF)
+
+    @property
+    def mean_mag(self):
+        return abs(self.loc) + math.exp(self.m + self.s * self.s / 2) + self.std
 
     def cdf(self, x):
         if x <= self.loc:
